@@ -17,7 +17,7 @@ NAMES = ['cdilate', 'cerode', 'tophat_open', 'tophat_close', 'subm', 'open_u8', 
          'convolve_out', 'convolve1d_out', 'gaussian_filter_out', 'median_filter_out', 'rank_filter_out', 'mean_filter_out',
          'template_match_out', 'label_out', 'borders_out', 'hitmiss_out', 'majority_filter_out', 'regmax_out', 'locmin_out',
          'zoom_out', 'shift_out', 'spline_filter_out',
-         'otsu_u16', 'rc_u16', 'fullhistogram_u16',
+         'otsu_u16', 'rc_u16', 'fullhistogram_u16', 'majority_filter_even', 'erode_output_kw', 'spline_filter_output_kw', 'stretch_big',
          'stretch', 'stretch_rgb', 'rgb2xyz', 'rgb2lab', 'rgb2grey', 'rgb2sepia', 'xyz2rgb', 'as_rgb']
 
 
@@ -70,6 +70,12 @@ def register(reg, g, mh, np):
                                            shape=tuple(int(round(1.5 * n)) for n in g(I, 'fl').shape)))
     reg('shift_out', ['fl'], lambda I: _out(mh.interpolate.shift, g(I, 'fl'), [0.5, 1.25]))
     reg('spline_filter_out', ['fl'], lambda I: _out(mh.interpolate.spline_filter, g(I, 'fl'), 3))
+    # calls that legitimately emit a Python warning and return (process-wide warning filters are shared by all threads: a
+    # function that edits them while it runs turns these warnings into exceptions in OTHER threads), and a long-running stretch
+    reg('majority_filter_even', ['b'], lambda I: mh.majority_filter(g(I, 'b'), 4))
+    reg('erode_output_kw', ['f'], lambda I: mh.erode(g(I, 'f'), output=np.empty_like(g(I, 'f'))))
+    reg('spline_filter_output_kw', ['fl'], lambda I: mh.interpolate.spline_filter(g(I, 'fl'), 3, output=np.float32))
+    reg('stretch_big', ['fl'], lambda I: mh.stretch(np.tile(g(I, 'fl'), (8, 8))))
     # C02
     reg('cdilate', ['f'], lambda I: mh.cdilate(g(I, 'f') // 2, g(I, 'f'), None, 3))
     reg('cerode', ['f'], lambda I: mh.cerode(g(I, 'f'), g(I, 'f') // 2))
